@@ -352,6 +352,52 @@ def run_case(ctx, name, params):
         for ind, c in zip(p.individuals[len(prep):], p.calls):
             if not check_fields(ctx, ind, c, signs, m, "sweep"):
                 return
+        if r.random() < 0.5:
+            # the same algorithm object sweeps a second time after its generator was given other designs (a refined table, another
+            # number of samples): the second sweep evaluates exactly what the generator produces NOW, once each, in order
+            if g == "custom":
+                gobj.init([[r.uniform(lb, ub) for lb, ub in bxs] for _ in range(r.randint(1, 12))])
+            elif g in ("random", "lhs", "halton"):
+                gobj.init(r.randint(1, 25))
+            n_ind, n_calls = len(p.individuals), len(p.calls)
+            vrng.install_numpy((params["seed"] + 1) % 2 ** 31)
+            try:
+                alg.run()
+            except Exception as e:
+                ctx.violation("sweep/second_run/exception", "the second run of a SweepAlgorithm object raised %r" % e, {"generator": g})
+                return
+            finally:
+                vrng.uninstall_numpy()
+            ctx.count("second_sweeps_of_one_algorithm_object")
+            if len(produced) == 2:
+                exp2 = produced[1]
+            elif len(produced) == 1 and g not in ("random", "lhs"):
+                # the generator was not consulted again (the statement does not say it has to be): what it produces now is known for the
+                # custom table and for the deterministic generators
+                exp2 = [list(map(float, v)) for v in real_generate()]
+                ctx.count("second_sweeps_judged_without_a_generate_call")
+            elif len(produced) == 1:
+                ctx.count("second_sweeps_not_judged_random_generator_not_consulted")
+                exp2 = None
+            else:
+                ctx.violation("sweep/second_run/generate_calls", "generator consulted %d times in the second sweep" % (len(produced) - 1),
+                              {"generator": g})
+                return
+            if exp2 is not None:
+                got2 = [list(map(float, i.vector)) for i in p.individuals[n_ind:]]
+                called2 = [list(map(float, c.vector)) for c in p.calls[n_calls:]]
+                wit2 = lambda: {"generator": g, "designs_now": exp2[:5], "recorded": got2[:5], "called": called2[:5], "first_sweep": exp[:5]}
+                if got2 != exp2:
+                    ctx.violation("sweep/second_run/recorded_designs", "the second sweep did not record exactly the designs its generator "
+                                  "produces now, in order", wit2())
+                    return
+                if called2 != exp2:
+                    ctx.violation("sweep/second_run/evaluated_designs", "the second sweep did not call the objective exactly once per design "
+                                  "its generator produces now, in order", wit2())
+                    return
+                for ind, c in zip(p.individuals[n_ind:], p.calls[n_calls:]):
+                    if not check_fields(ctx, ind, c, signs, m, "sweep"):
+                        return
         ctx.nontrivial(("s", g, params["seed"]))
         ctx.count("cases")
         ctx.sample({"generator": g, "designs": len(exp), "first": exp[0] if exp else None}, "sweep")
